@@ -63,7 +63,8 @@ C_INIT = clause(USI, 'post:inherited_state', ['C14'], 'B')
 
 C_PLAIN = clause('_signatures.UpgradedSignature.__init__', 'post:plain_parameters_upgraded', ['C14'], 'B',
                  'plain inspect.Parameter objects handed to the constructor or to replace(parameters=...) come out as upgraded parameters '
-                 'carrying the same data - every one of them, so that whatever sigtools returns answers replace() with the upgraded type')
+                 'carrying the same data - every one of them, so that whatever sigtools returns answers replace() with the upgraded type; '
+                 'the parameters may arrive as any iterable, a one-shot generator included (as for inspect.Signature)')
 C_NOW = clause('_signatures.UpgradedAnnotation.source_value', 'post:evaluated_when_asked', ['C11'], 'P',
                'a postponed annotation denotes what its expression evaluates to in the globals of its function AT THE TIME source_value() is '
                'called (module globals are mutable: a placeholder replaced later, a configuration switch) - asked twice, evaluated twice')
@@ -203,15 +204,17 @@ def make_runner(unit, kind=None, shape=None, other='self', want=None):
                     r.outcome, r.exc = 'raise', e
                 finally:
                     sym.EPOCH[0] = 0
-            elif unit in ('sig_init_plain', 'sig_replace_plain'):
-                # the deprecated-but-supported route: plain inspect.Parameter objects handed to the constructor / to replace
-                plain = list(world.plain_signature(I, info)._d['_parameters'].plist)
+            elif unit in ('sig_init_plain', 'sig_replace_plain', 'sig_init_iter', 'sig_replace_iter', 'sig_init_plain_iter'):
+                # the deprecated-but-supported route: plain inspect.Parameter objects handed to the constructor / to replace;
+                # ..._iter: the parameters arrive as a ONE-SHOT iterable (a generator), which inspect.Signature accepts
+                plain = list(world.plain_signature(I, info)._d['_parameters'].plist) if 'plain' in unit else list(info.params)
                 env['plain'] = plain
+                given = iter(list(plain)) if unit.endswith('_iter') else plain
                 try:
-                    if unit == 'sig_init_plain':
-                        r.value = I.instantiate(US, [plain], [('return_annotation', info.sig._d['_return_annotation'])])
+                    if unit.startswith('sig_init'):
+                        r.value = I.instantiate(US, [given], [('return_annotation', info.sig._d['_return_annotation'])])
                     else:
-                        r.value = I.call(I.getattr_(info.sig, 'replace'), [], [('parameters', plain)])
+                        r.value = I.call(I.getattr_(info.sig, 'replace'), [], [('parameters', given)])
                     r.outcome = 'return'
                 except PyExc as e:
                     r.outcome, r.exc = 'raise', e
@@ -345,7 +348,7 @@ def vcs(env, want):
             goal = z3.And(t(v1) == z3.If(post, sym.EVALIN(raw.t, fn.t), raw.t), t(v2) == z3.If(post, sym.EVALIN_AT(raw.t, fn.t, z3.IntVal(1)), raw.t))
         out.append(VC(C_NOW.full, [], goal, C_NOW.props))
         return out
-    if unit in ('sig_init_plain', 'sig_replace_plain'):
+    if unit in ('sig_init_plain', 'sig_replace_plain', 'sig_init_iter', 'sig_replace_iter', 'sig_init_plain_iter'):
         if not on(C_PLAIN):
             return out
         if r.outcome == 'raise':
@@ -486,10 +489,17 @@ def replay(env, vc, model):
         if not (v1 is ns['First'] and v2 is ns['Second']):
             bad.append(('post:evaluated_when_asked', 'source_value() before / after the module rebinds Target: %r / %r' % (v1, v2)))
         return dict(status='reproduced' if bad else 'not-reproduced', op='dropin:ua_twice', violated=[list(b) for b in bad])
-    if unit in ('sig_init_plain', 'sig_replace_plain'):
-        plain = list(inspect.signature(list(sig.sources['+depths'])[0]).parameters.values())
+    if unit in ('sig_init_plain', 'sig_replace_plain', 'sig_init_iter', 'sig_replace_iter', 'sig_init_plain_iter'):
+        plain = list(inspect.signature(list(sig.sources['+depths'])[0]).parameters.values()) if 'plain' in unit else list(sig.parameters.values())
         try:
-            res = _signatures.UpgradedSignature(plain) if unit == 'sig_init_plain' else sig.replace(parameters=plain)
+            import warnings as _w
+            with _w.catch_warnings():
+                _w.simplefilter('ignore')
+                given = iter(list(plain)) if unit.endswith('_iter') else plain
+                res = _signatures.UpgradedSignature(given) if unit.startswith('sig_init') else sig.replace(parameters=given)
+            if [(q.name, int(q.kind)) for q in res.parameters.values()] != [(q.name, int(q.kind)) for q in plain]:
+                bad.append(('post:plain_parameters_upgraded', '%s built from %d parameters handed over as %s has the parameters %s' % (
+                    type(res).__name__, len(plain), 'a one-shot iterator' if unit.endswith('_iter') else 'a list', res)))
             for q in res.parameters.values():
                 if not isinstance(q, _signatures.UpgradedParameter):
                     bad.append(('post:plain_parameters_upgraded', 'parameter %s of %s is a plain inspect.Parameter' % (q.name, res)))
